@@ -7,6 +7,8 @@ CONSTANTS
   MaxFail = 2
   MaxKill = 2
   Eager = TRUE
+  CloseErr = FALSE
+  Defect_LateCloseUnderLock = FALSE
   Defect_AddDeadConn = FALSE
   Mut = "none"
 ACTION_CONSTRAINT EmitEdge
